@@ -139,65 +139,170 @@ func vpWriteAll(fd int, p []byte) error {
 	return nil
 }
 
-// vpPrepare makes a unix stream socketpair (non-blocking) in the named state:
+// named descriptor states -> histories ("h:<u|t>:<actions>", see vpPrepare)
+var vpNamed = map[string]string{
+	"idle": "h:u:", "data": "h:u:w5", "big": "h:u:W", "eof": "h:u:c", "dataeof": "h:u:w5.c", "bigeof": "h:u:W.c",
+	"shutwr": "h:u:s", "datashut": "h:u:w5.s", "reset": "h:u:o3.c", "datareset": "h:u:w5.o3.c", "full": "h:u:f", "datafull": "h:u:w5.f",
+}
+
+var vpListener = -1
+var vpListenAddr syscall.Sockaddr
+
+// vpTCPPair: a connected loopback TCP pair (a = the connecting side)
+func vpTCPPair() (a, b int, err error) {
+	if vpListener < 0 {
+		l, err := syscall.Socket(syscall.AF_INET, syscall.SOCK_STREAM|syscall.SOCK_CLOEXEC, 0)
+		if err != nil {
+			return -1, -1, err
+		}
+		if err = syscall.Bind(l, &syscall.SockaddrInet4{Addr: [4]byte{127, 0, 0, 1}}); err != nil {
+			return -1, -1, err
+		}
+		if err = syscall.Listen(l, 128); err != nil {
+			return -1, -1, err
+		}
+		if vpListenAddr, err = syscall.Getsockname(l); err != nil {
+			return -1, -1, err
+		}
+		vpListener = l
+	}
+	if a, err = syscall.Socket(syscall.AF_INET, syscall.SOCK_STREAM|syscall.SOCK_CLOEXEC, 0); err != nil {
+		return -1, -1, err
+	}
+	if err = syscall.Connect(a, vpListenAddr); err != nil {
+		syscall.Close(a)
+		return -1, -1, err
+	}
+	if b, _, err = syscall.Accept4(vpListener, syscall.SOCK_CLOEXEC); err != nil {
+		syscall.Close(a)
+		return -1, -1, err
+	}
+	for _, fd := range []int{a, b} {
+		syscall.SetNonblock(fd, true)
+		syscall.SetsockoptInt(fd, syscall.IPPROTO_TCP, syscall.TCP_NODELAY, 1)
+	}
+	return a, b, nil
+}
+
+// vpSettle waits (briefly) until what the peer did has reached descriptor fd
+func vpSettle(fd int, want int16) {
+	pfd := []vpPollFd{{fd: int32(fd), events: want}}
+	syscall.Syscall(syscall.SYS_POLL, uintptr(unsafe.Pointer(&pfd[0])), 1, 200)
+}
+
+type vpPollFd struct {
+	fd      int32
+	events  int16
+	revents int16
+}
+
+// vpPrepare makes a connected stream pair (non-blocking) and brings it into the named state or through
+// the history "h:<u|t>:<a1>.<a2>..." (u = unix socketpair, t = loopback TCP), actions:
 //
-//	idle       nothing pending, peer open
-//	data       5 bytes pending                      big      2*cap+3 bytes pending (three reads)
-//	eof        peer closed                          dataeof / bigeof   bytes pending, then peer closed
-//	shutwr     peer shut down its write side        datashut           5 bytes, then SHUT_WR
-//	reset      peer closed with our bytes unread (ECONNRESET)    datareset  5 bytes pending + that
-//	full       our send buffer full                 datafull           5 bytes pending + that
+//	wN  peer writes N pattern bytes      W   peer writes 2*cap+3 bytes (three reads)
+//	oN  we write N bytes                 f   our send buffer is filled until EAGAIN
+//	c   peer closes                      s   peer shuts down its write side
+//	l   peer closes with SO_LINGER 0 (TCP reset)        rN  we read N bytes     x  we read once more (takes a pending error)
+//
+// Named states: idle, data (5 bytes pending), big, eof, dataeof, bigeof, shutwr, datashut,
+// reset (peer closed with our bytes unread: ECONNRESET), datareset, full, datafull.
 func vpPrepare(ds string, capv int) (*vpDesc, error) {
-	fds, err := syscall.Socketpair(syscall.AF_UNIX, syscall.SOCK_STREAM|syscall.SOCK_NONBLOCK|syscall.SOCK_CLOEXEC, 0)
-	if err != nil {
-		return nil, err
+	if h, ok := vpNamed[ds]; ok {
+		ds = h
 	}
-	d := &vpDesc{a: fds[0], b: fds[1]}
+	d := &vpDesc{a: -1, b: -1}
 	fail := func(err error) (*vpDesc, error) { d.close(); return nil, fmt.Errorf("prepare %s: %v", ds, err) }
-	pending := 0
-	switch {
-	case strings.HasPrefix(ds, "data"):
-		pending = vpSmall
-	case strings.HasPrefix(ds, "big"):
-		pending = 2*capv + 3
+	if len(ds) < 4 || ds[:2] != "h:" || ds[3] != ':' {
+		return fail(fmt.Errorf("unknown state"))
 	}
-	if pending > 0 {
-		if err := vpWriteAll(d.b, vpPattern(0, pending)); err != nil {
+	tcp := ds[2] == 't'
+	if tcp {
+		var err error
+		if d.a, d.b, err = vpTCPPair(); err != nil {
 			return fail(err)
 		}
+	} else {
+		fds, err := syscall.Socketpair(syscall.AF_UNIX, syscall.SOCK_STREAM|syscall.SOCK_NONBLOCK|syscall.SOCK_CLOEXEC, 0)
+		if err != nil {
+			return fail(err)
+		}
+		d.a, d.b = fds[0], fds[1]
 	}
-	switch strings.TrimPrefix(strings.TrimPrefix(ds, "data"), "big") {
-	case "", "idle":
-	case "eof":
-		syscall.Close(d.b)
-		d.b = -1
-	case "shutwr", "shut":
-		if err := syscall.Shutdown(d.b, syscall.SHUT_WR); err != nil {
-			return fail(err)
+	woff := 0
+	for _, act := range strings.Split(ds[4:], ".") {
+		if act == "" {
+			continue
 		}
-	case "reset":
-		if err := vpWriteAll(d.a, []byte{1, 2, 3}); err != nil {
-			return fail(err)
+		n := 0
+		if len(act) > 1 {
+			n, _ = strconv.Atoi(act[1:])
 		}
-		syscall.Close(d.b)
-		d.b = -1
-	case "full":
-		syscall.SetsockoptInt(d.a, syscall.SOL_SOCKET, syscall.SO_SNDBUF, 4096)
-		chunk := make([]byte, 1024)
-		for i := 0; i < 1<<16; i++ {
-			n, err := syscall.Write(d.a, chunk)
-			if n > 0 {
-				d.prefill += n
-			}
-			if err == syscall.EAGAIN {
-				break
-			}
-			if err != nil {
+		switch act[0] {
+		case 'W':
+			n = 2*capv + 3
+			fallthrough
+		case 'w':
+			if err := vpWriteAll(d.b, vpPattern(woff, n)); err != nil {
 				return fail(err)
 			}
+			woff += n
+			if tcp {
+				vpSettle(d.a, 0x1)
+			}
+		case 'o':
+			if err := vpWriteAll(d.a, make([]byte, n)); err != nil {
+				return fail(err)
+			}
+			d.prefill += n
+			if tcp {
+				vpSettle(d.b, 0x1)
+			}
+		case 'c', 'l':
+			if act[0] == 'l' {
+				syscall.SetsockoptLinger(d.b, syscall.SOL_SOCKET, syscall.SO_LINGER, &syscall.Linger{Onoff: 1, Linger: 0})
+			}
+			syscall.Close(d.b)
+			d.b = -1
+			if tcp {
+				vpSettle(d.a, 0x2000|0x10|0x8)
+			}
+		case 's':
+			if err := syscall.Shutdown(d.b, syscall.SHUT_WR); err != nil {
+				return fail(err)
+			}
+			if tcp {
+				vpSettle(d.a, 0x2000)
+			}
+		case 'x':
+			// we read once more (consumes a pending socket error)
+			syscall.Read(d.a, make([]byte, 1))
+		case 'r':
+			buf := make([]byte, n)
+			for got := 0; got < n; {
+				k, err := syscall.Read(d.a, buf[got:])
+				if k <= 0 || err != nil {
+					return fail(fmt.Errorf("history read: %d %v", k, err))
+				}
+				got += k
+			}
+		case 'f':
+			syscall.SetsockoptInt(d.a, syscall.SOL_SOCKET, syscall.SO_SNDBUF, 4096)
+			chunk := make([]byte, 1024)
+			for i := 0; i < 1<<16; i++ {
+				k, err := syscall.Write(d.a, chunk)
+				if k > 0 {
+					d.prefill += k
+				}
+				if err == syscall.EAGAIN {
+					break
+				}
+				if err != nil {
+					return fail(err)
+				}
+			}
+		default:
+			return fail(fmt.Errorf("unknown action %q", act))
 		}
-	default:
-		return fail(fmt.Errorf("unknown state"))
 	}
 	return d, nil
 }
@@ -336,11 +441,9 @@ func (r *vpRecPoll) Wait() error    { return r.p.Wait() }
 func (r *vpRecPoll) Close() error   { return r.p.Close() }
 func (r *vpRecPoll) Trigger() error { return r.p.Trigger() }
 func (r *vpRecPoll) Control(op *FDOperator, ev PollEvent) error {
-	code := "D"
-	if ev != PollDetach {
-		code = "C" + strconv.Itoa(int(ev))
+	if ev == PollDetach {
+		r.rec.add(r.ids[op], "D", 0, false, atomic.LoadInt32(&op.state))
 	}
-	r.rec.add(r.ids[op], code, 0, false, atomic.LoadInt32(&op.state))
 	return r.p.Control(op, ev)
 }
 func (r *vpRecPoll) Alloc() *FDOperator   { return r.p.Alloc() }
@@ -469,24 +572,38 @@ func vpWaitGoroutines(base int) bool {
 
 // ---------------------------------------------------------------- one batch
 
+// observations on twins are a function of (state, room, length); measured once per process and state
+var vpObsCache = map[string]string{}
+
+func vpCached(key string, f func() (string, error)) (string, error) {
+	if v, ok := vpObsCache[key]; ok {
+		return v, nil
+	}
+	v, err := f()
+	if err == nil {
+		vpObsCache[key] = v
+	}
+	return v, err
+}
+
 // vpObserve fills in the scripts of a non-wake event (only the ones the flags and callbacks can consult)
 func vpObserve(e *vpEv) error {
 	var err error
 	e.rds, e.sds, e.errq, e.wake = "", "", "", ""
 	nreads := 0
 	if e.has('I') {
-		if e.rds, err = vpObserveReads(e.ds, e.cap); err != nil {
+		if e.rds, err = vpCached(fmt.Sprint("r/", e.ds, "/", e.cap), func() (string, error) { return vpObserveReads(e.ds, e.cap) }); err != nil {
 			return err
 		}
 		nreads = strings.Count(e.rds, ",") + 1
 	}
 	if e.evt&syscall.EPOLLERR != 0 {
-		if e.errq, err = vpObserveErrq(e.ds, e.cap, nreads); err != nil {
+		if e.errq, err = vpCached(fmt.Sprint("q/", e.ds, "/", e.cap, "/", nreads), func() (string, error) { return vpObserveErrq(e.ds, e.cap, nreads) }); err != nil {
 			return err
 		}
 	}
 	if e.has('O') {
-		if e.sds, err = vpObserveSend(e.ds, e.cap, e.ol); err != nil {
+		if e.sds, err = vpCached(fmt.Sprint("s/", e.ds, "/", e.cap, "/", e.ol), func() (string, error) { return vpObserveSend(e.ds, e.cap, e.ol) }); err != nil {
 			return err
 		}
 	}
@@ -504,6 +621,7 @@ func vpSizeFor(n int) int {
 // vpReset is p.Reset(size, barriercap) with the event and barrier arrays of an earlier call reused
 // (allocating 128 barriers per case dominates the run time otherwise)
 var vpArgs = map[int]*pollArgs{}
+var vpSpare *defaultPoll
 
 func vpReset(p *defaultPoll, size int) {
 	a := vpArgs[size]
@@ -521,12 +639,23 @@ func vpReset(p *defaultPoll, size int) {
 // vpRunBatch prepares everything, prints the op line, runs the real handler, prints the reply line
 func vpRunBatch(evs []*vpEv, buf0 byte, ow, iw *bufio.Writer) {
 	reply := func(s string) { fmt.Fprintln(iw, s); iw.Flush() }
-	p, err := openDefaultPoll()
-	if err != nil {
-		fmt.Fprintf(ow, "batch n=0 buf0=0 size=128\n")
-		ow.Flush()
-		reply("harness-error open: " + err.Error())
-		return
+	// a private poll instance; kept for the next batch when this one leaves it untouched (no wake-up event)
+	hasWake := false
+	for _, e := range evs {
+		if e.kind == "K" {
+			hasWake = true
+		}
+	}
+	p := vpSpare
+	vpSpare = nil
+	if p == nil {
+		var err error
+		if p, err = openDefaultPoll(); err != nil {
+			fmt.Fprintf(ow, "batch n=0 buf0=0 size=128\n")
+			ow.Flush()
+			reply("harness-error open: " + err.Error())
+			return
+		}
 	}
 	size := vpSizeFor(len(evs))
 	vpReset(p, size)
@@ -597,8 +726,12 @@ func vpRunBatch(evs []*vpEv, buf0 byte, ow, iw *bufio.Writer) {
 	cleanup := func(exited bool) {
 		for _, d := range descs {
 			if d != nil {
-				d.close()
+				d.close() // closing a descriptor also removes it from the interest list
 			}
+		}
+		if !hasWake && !exited && perr == nil && len(p.hups) == 0 {
+			vpSpare = p
+			return
 		}
 		if !vpFdClosed(p.wop.FD) && !exited {
 			syscall.Close(p.wop.FD)
@@ -646,13 +779,21 @@ func vpRunBatch(evs []*vpEv, buf0 byte, ow, iw *bufio.Writer) {
 		tr = append(tr, s+"@"+strconv.Itoa(int(it.tok)))
 	}
 	wopClosed, epClosed := vpFdClosed(wopFD), vpFdClosed(epFD)
-	var regset map[int]bool
+	regset := map[int]bool{}
 	if !epClosed {
-		regset = vpRegistered(epFD)
+		if len(evs) > 8 {
+			regset = vpRegistered(epFD)
+		} else {
+			// EPOLL_CTL_MOD fails with ENOENT exactly when the descriptor is not in the interest list
+			for i := range evs {
+				ev := epollevent{events: syscall.EPOLLIN}
+				regset[ops[i].FD] = EpollCtl(epFD, syscall.EPOLL_CTL_MOD, ops[i].FD, &ev) == nil
+			}
+		}
 	}
 	for i, e := range evs {
 		st = append(st, fmt.Sprintf("%d:%d/%d", e.id, atomic.LoadInt32(&ops[i].state), atomic.LoadInt32(&ops[i].detached)))
-		if regset != nil {
+		if !epClosed {
 			r := 0
 			if regset[ops[i].FD] {
 				r = 1
@@ -715,8 +856,9 @@ func vpKindSet(i int) string {
 
 // vpEnumerate calls f on every case of the finite part, in a fixed order:
 //
-//	A. 32 flag sets x 32 callback sets x 12 descriptor states x {not detached, detached}
-//	   x Inputs shapes (4, if Inputs present) x Outputs shapes (3, if Outputs present), token held by nobody (state 1)
+//	A. 32 flag sets x 32 callback sets x 12 descriptor states, token free (state 1), not yet detached,
+//	   x Inputs shapes (4, if Inputs present) x Outputs shapes (3, if Outputs present);
+//	   and the same 32 x 32 x 12 with the detach-once counter already taken (plain shapes)
 //	B. 32 flag sets x 32 callback sets x token states {0 unused, 2 busy}: do() fails
 //	C. 32 flag sets x 8 wake-up descriptor states x stale buffer byte {0,1}, and token not available
 func vpEnumerate(f func(e *vpEv, buf0 byte)) {
@@ -731,13 +873,13 @@ func vpEnumerate(f func(e *vpEv, buf0 byte)) {
 				outsv = vpOutsVariants
 			}
 			for _, ds := range vpStates {
-				for det := int32(0); det < 2; det++ {
-					for _, ins := range insv {
-						for _, outs := range outsv {
-							f(&vpEv{evt: vpFlagSet(fl), kind: kind, st: 1, det: det, ds: ds, cap: vpCap, ol: vpSmall, ins: ins, outs: outs}, 0)
-						}
+				for _, ins := range insv {
+					for _, outs := range outsv {
+						f(&vpEv{evt: vpFlagSet(fl), kind: kind, st: 1, det: 0, ds: ds, cap: vpCap, ol: vpSmall, ins: ins, outs: outs}, 0)
 					}
 				}
+				// someone else (a concurrent Detach) already took the detach-once counter
+				f(&vpEv{evt: vpFlagSet(fl), kind: kind, st: 1, det: 1, ds: ds, cap: vpCap, ol: vpSmall}, 0)
 			}
 			for _, st := range []int32{0, 2} {
 				f(&vpEv{evt: vpFlagSet(fl), kind: kind, st: st, det: 0, ds: "dataeof", cap: vpCap, ol: vpSmall}, 0)
@@ -916,7 +1058,7 @@ func VerifPollHMain(args []string) int {
 			atomic.AddInt64(&progress, 1)
 		}
 	case "real":
-		return vpRealMain(*seed, *n, *tier, ow, iw, &progress)
+		vpRealMain(*seed, *n, *tier, ow, iw, &progress)
 	case "replay":
 		f, err := os.Open(*replay)
 		if err != nil {
@@ -945,6 +1087,15 @@ func VerifPollHMain(args []string) int {
 		}
 	default:
 		return 2
+	}
+	if vpListener >= 0 {
+		syscall.Close(vpListener)
+		vpListener = -1
+	}
+	if vpSpare != nil {
+		syscall.Close(vpSpare.wop.FD)
+		syscall.Close(vpSpare.fd)
+		vpSpare = nil
 	}
 	// every descriptor the harness or the poller opened is closed again
 	if fds1 := vpOpenFds(); fds1 != fds0 {
